@@ -73,6 +73,14 @@ theorem held_depositBad (k : Kind) (g c n : Nat) (hc : c < 3) :
     simp only [bridgeTokenToBaseCoin, depositBridgeToken, conversionCoin, List.cons_append, List.nil_append, ite_true] <;>
     held_done
 
+theorem held_depositBadRefund (k : Kind) (g c r n : Nat) (hc : c < 3) :
+    (heldObs g').flowDelta (bridgeTokenToBaseCoin k g c badContract n ++ [.send (.base g) badContract (U r) n]) =
+      if g = g' then (n : Int) else 0 := by
+  have : c = 0 ∨ c = 1 ∨ c = 2 := by omega
+  rcases this with rfl | rfl | rfl <;> cases k <;>
+    simp only [bridgeTokenToBaseCoin, depositBridgeToken, conversionCoin, List.cons_append, List.nil_append, ite_true] <;>
+    held_done
+
 theorem held_convertCoin (k : Kind) (g u r n : Nat) :
     (heldObs g').flowDelta (convertCoin k g (U u) (U r) n) = 0 := by
   cases k <;> simp only [convertCoin] <;> held_done
